@@ -18,7 +18,11 @@ ESC = "\x1b"
 TXT = ["foo", "é日", "a b", "x\ny", "", " ", "bar\x08z", "q\x17w"]
 CHANGES = ["x", "3x", "X", "2X", "dd", "2dd", "dw", "2dw", "d$", "D", "dj", "dk", "de", "db", "d0", "J", "3J", "p", "P", "2p", "3P", ">>", "2>>", "<<", ">j",
            "~", "4~", "g~w", "gUw", "guu", "gUU", "g~~", "rZ", "2rQ", "ré", "yy", "yw", "Y", "2yy", "\"ayy", "\"Ayw", "\"add", "\"ap", "\"bdw", "\"bP", "\"Add",
-           "!!tr a-z A-Z\n", "!jsort\n", "!}sed s/^/Q/\n", "dfo", "dta", "d;", "dG", "d}", "d{"]
+           "!!tr a-z A-Z\n", "!jsort\n", "!}sed s/^/Q/\n", "dfo", "dta", "d;", "dG", "d}", "d{",
+           # operators whose motion prompts for a pattern
+           "d/ba\n", "d/o\n", "d?o\n", "y/two\n", "dn", "dN", "2d/o\n"]
+# (no c/pattern: when the search fails the recorded change is only "c/pattern<CR>" and its text is typed as commands, so that a later
+#  "." is not comparable with retyping - a harness artefact found when these were first added)
 INSERTS = ["i", "a", "I", "A", "o", "O", "s", "S", "C", "cw", "c$", "cc", "2cw", "cj", "cb", "3s", "2cc"]
 MOTIONS = ["j", "k", "l", "h", "w", "b", "e", "$", "0", "^", "G", "1G", "2j", "3l", "W", "fo", ";", "}", "{", "+", "-"]
 
